@@ -321,7 +321,7 @@ func c14Values(tier string) []tval {
 		vs = append(vs, tval{kind: "float", f: f})
 	}
 	// strings: all <= 3 symbols over the alphabet
-	syms := []string{"a", "é", "€", " ", `"`}
+	syms := []string{"a", "é", "€", " ", `"`, "\u00ad"} // U+00AD: its UTF-8 form ends in the byte that marks a null string when it comes FIRST
 	var rec func(s string, d int)
 	rec = func(s string, d int) {
 		vs = append(vs, tval{kind: "string", s: s}, tval{kind: "stringbytes", s: s})
